@@ -203,7 +203,7 @@ def pass1(mod, pid, findings, col, tier):
             if not res.ok:
                 violations.append((chk.name, f["case"], res))
     d = os.path.join(VERIF, "replays", pid)
-    if os.path.isdir(d):
+    if os.path.isdir(d) and not os.environ.get("VERIF_NO_REPLAYS"):  # dev switch: judge the generated search alone
         for fn in sorted(os.listdir(d)):
             if not fn.endswith(".json"):
                 continue
